@@ -1,8 +1,8 @@
 #!/bin/bash
 # usage: tools_seed.sh <PROP> <k>  - confirm a sub-agent's seeded change in a scratch worktree and file it under /verif/seeded/
 P=$1; K=$2
-src=/tmp/mut-$P/out
-id=$P-m$K
+src=${SRC:-/tmp/mut-$P/out}
+id=${ID:-$P-m$K}
 wt=/tmp/seedchk-$id
 dst=/verif/seeded/$id
 [ -f $src/m$K.diff ] || { echo "no diff"; exit 2; }
